@@ -33,7 +33,7 @@ func run(e *harness.Env) {
 	e.Rule = "grid grammar: full product of K columns (1..2 quick plus K=3 for R=2, 1..4 thorough) x R rows (1,2,3,8 quick; 1,2,3,4,8 thorough) x W words per line (1..3) x API, and on top of each grid every " +
 		"combination of at most 2 (quick) / 3 (thorough) deviations among: justified, heading (first/last column, or a 30pt in-column heading), short last line, single-word line, overhanging word (near/far), " +
 		"spanning title (top/mid), list markers (bullet/numbered/nested), RTL run, character-level fragmentation, exact duplicate overlay (all/line), inverted Y, coordinates x0.1, " +
-		"single narrow glyph line (I/1), repeated text at a different position (word / doubled letter), hyphenated line end, columns not baseline-aligned (stagger),  descending map order (APIs with paragraph detection), one absent cell per deviation. Stack sub-space: pages of 4 (quick) / 5 (thorough) lines, every line left / middle / right / full width, boxes 12 on 14.4, 15 on 10, 12 on 8 (full product): every merge topology of up to 4/5 blocks. Reuse sub-space: for each of 12 detector/analyzer instance types, one instance analyses every ordered sequence A,B / A,B,A / A,A / A|B (thorough also A,B,C and A,B,A,B) over 17 reduced grammar pages with disjoint tokens; all results are rendered only afterwards and must equal the rendering by a fresh instance. distinct = distinct (API, grid, deviation vector); non-trivial = at least one deviation"
+		"single narrow glyph line (I/1), repeated text at a different position (word / doubled letter), hyphenated line end, columns not baseline-aligned (stagger),  descending map order (APIs with paragraph detection), one absent cell per deviation. Stack sub-space: pages of 4 (quick) / 5 (thorough) lines, every line left / middle / right / full width, boxes 12 on 14.4, 15 on 10, 12 on 8 (full product): every merge topology of up to 4/5 blocks. Glyph sub-space: character-level pages with a word holding a doubled narrow / wide glyph (ll ii jj .. oo mm ee tt …) at every position of a line and two sizes, and word-level pages with one word painted a second time at offsets 0, 0.3, 0.7, 2, 4 pt (x) / 0.3 pt (y), directly after the original or as a second layer (full product). Reuse sub-space: for each of 12 detector/analyzer instance types, one instance analyses every ordered sequence A,B / A,B,A / A,A / A|B (thorough also A,B,C and A,B,A,B) over 17 reduced grammar pages with disjoint tokens; all results are rendered only afterwards and must equal the rendering by a fresh instance. distinct = distinct (API, grid, deviation vector); non-trivial = at least one deviation"
 	e.Assumptions = []string{
 		"Part 2 trusts tabula's PDF parsing and text positioning (C01/C08) to deliver the fragments: the reference is the list of fragments written into the PDF, their widths/heights are taken from tabula.Open(f).Fragments()",
 		"text.DetectDirection is used to label the direction of Part-1 input fragments exactly as text extraction would",
@@ -49,6 +49,9 @@ func run(e *harness.Env) {
 	}
 	if only == "" || only == "stack" {
 		stackSpace(e)
+	}
+	if only == "" || only == "glyphs" {
+		glyphSpace(e)
 	}
 	for _, a := range apis {
 		if only != "" && a.name != only {
@@ -103,7 +106,7 @@ func runCase(e *harness.Env, desc string, a api, p *pageSpec) (string, string, m
 	} else {
 		os.Setenv("C09_MAPORDER", "asc")
 	}
-	items := refItems(p)
+	items := refItems(p, a.part)
 	var v view
 	var files map[string][]byte
 	sig, det := harness.Guard(func() {
@@ -272,5 +275,110 @@ func debugLog(api, sig, desc string) {
 	if fh, err := os.OpenFile(f, os.O_APPEND|os.O_CREATE|os.O_WRONLY, 0o644); err == nil {
 		fmt.Fprintf(fh, "%s\t%s\t%s\n", api, sig, desc)
 		fh.Close()
+	}
+}
+
+// ---- glyph sub-space: identical neighbours --------------------------------------------------------------
+//
+// Two fragments with the same text close to each other are either the two halves of a doubled letter on a
+// character-level page ("hello", "skiing": l and i advance 0.22 em in Helvetica, o 0.56 em) or a second layer of the same
+// word (poor man's bold). Only text extraction may remove a copy, and only one that rounds to the same grid point
+// (refItems); layout analysis has to keep every fragment it is given.
+func glyphSpace(e *harness.Env) {
+	words := []string{"hello", "skiing", "jj", "will", "a..b", "moon", "mm", "seen", "tt", "off", "llama", "Illinois"}
+	sizes := []float64{12, 8}
+	if e.Thorough() {
+		words = append(words, "i", "ll", "riff", "x||y", "aaa", "lil", "ii")
+		sizes = append(sizes, 24, 5)
+	}
+	type off struct {
+		name   string
+		dx, dy float64
+	}
+	offsets := []off{{"0", 0, 0}, {"x0.3", 0.3, 0}, {"y0.3", 0, 0.3}, {"x0.7", 0.7, 0}, {"x2", 2, 0}, {"x4", 4, 0}}
+	base := func() *pageSpec {
+		return &pageSpec{K: 1, R: 2, W: 3, absent: map[[2]int]bool{}, scaleF: 1, heading: "none", overhang: "none", title: "none", list: "none", dup: "none", narrow: "none", repeat: "none"}
+	}
+	fill := [][]string{{"bad", "cup", "dog"}, {"pen", "hut", "van"}} // fillers share no letter pair with each other's neighbours
+	for _, a := range apis {
+		if a.part == 2 && a.name != "Fragments" && a.name != "ExtractText" && a.name != "Lines" && a.name != "Text" && a.name != "ByColumn" && a.name != "JoinParagraphs" && a.name != "PreserveLayout" && a.name != "Elements" {
+			continue
+		}
+		// (1) character-level pages
+		for _, w := range words {
+			for pos := 0; pos < 3; pos++ {
+				for _, size := range sizes {
+					desc := harness.D("part", a.part, "api", a.name, "space", "glyphs", "word", w, "at", pos, "size", size)
+					if !e.Own(desc) {
+						continue
+					}
+					p := base()
+					p.charfrag = true
+					for row := 0; row < 2; row++ {
+						x := marginL
+						y := topY - float64(row)*size*1.2
+						for k := 0; k < 3; k++ {
+							word := fill[row][k]
+							if row == 0 && k == pos {
+								word = w
+							}
+							for _, r := range word {
+								cw := textWidth(string(r), size)
+								p.frags = append(p.frags, frag{text: string(r), x: x, y: y, w: cw, size: size, role: "body", col: 0, row: row})
+								x += cw
+							}
+							x += textWidth(" ", size)
+						}
+					}
+					sig, detail, files := runCase(e, desc, a, p)
+					if sig != "" {
+						e.Fail(desc, sig, detail, files)
+						continue
+					}
+					e.Pass(desc, true, "glyphs:chars")
+				}
+			}
+		}
+		// (2) a word painted twice
+		for pos := 0; pos < 3; pos++ {
+			for _, o := range offsets {
+				for _, layer := range []string{"adjacent", "last"} {
+					desc := harness.D("part", a.part, "api", a.name, "space", "glyphs", "twice", pos, "offset", o.name, "stream", layer)
+					if !e.Own(desc) {
+						continue
+					}
+					p := base()
+					ts := &tokenSrc{}
+					var second []frag
+					for row := 0; row < 2; row++ {
+						x := marginL
+						y := topY - float64(row)*leading
+						for k := 0; k < 3; k++ {
+							w := ts.next()
+							f := frag{text: w, x: x, y: y, w: textWidth(w, bodySize), size: bodySize, role: "body", col: 0, row: row}
+							p.frags = append(p.frags, f)
+							if row == 0 && k == pos {
+								g := f
+								g.x, g.y = f.x+o.dx, f.y+o.dy
+								g.isDup = o.dx == 0 && o.dy == 0
+								if layer == "adjacent" {
+									p.frags = append(p.frags, g)
+								} else {
+									second = append(second, g)
+								}
+							}
+							x += f.w + textWidth(" ", bodySize)
+						}
+					}
+					p.frags = append(p.frags, second...)
+					sig, detail, files := runCase(e, desc, a, p)
+					if sig != "" {
+						e.Fail(desc, sig, detail, files)
+						continue
+					}
+					e.Pass(desc, true, "glyphs:twice")
+				}
+			}
+		}
 	}
 }
